@@ -91,6 +91,9 @@ def run(ck: Checker):
     history_fold.fold_histories(ck, 'C14.HIST', only=('into_bench',))
     history_fold.fold_copy_convert(ck, 'C14.HIST')
     ck.floor('C14.HIST', 2)
+    ck.rule('C14.DRAW', 'into_graphviz_digraph(as_bench=True), the second observation point, folded with a recording stand-in for graphviz.Digraph: nodes, wires and block clusters drawn are those of the converted copy (helper gates inside the clusters of the blocks of the rewritten gate), the drawn circuit is untouched')
+    history_fold.fold_bench_drawing(ck, 'C14.DRAW')
+    ck.floor('C14.DRAW', 1)
     mod, dnode, table = rw.find_convertors(ck)
     need = [t for t in GATE_NAMES if t not in semantics.BENCH_BASIS]
     missing = [t for t in need if t not in table]
